@@ -385,6 +385,27 @@ impl DomGen {
                     3 => 1,
                     _ => r.below(5),
                 };
+                // names that only a careless comparison would confuse with reserved or known ones: padded / case-changed
+                // "Name", and case variants of properties the class really has (always String / Int32, see below)
+                if r.chance(1, 6) {
+                    let known: Vec<String> = settable.iter().map(|(n, _, _)| n.clone()).collect();
+                    let (name, v) = match r.below(4) {
+                        0 => ((*r.pick(&[" Name", "Name ", "\tName", "NAME", "nAME", "Name\u{a0}", "ClassName", "Parent", "Referent", "referent"])).to_owned(), Variant::String(format!("tricky{}", r.below(9)))),
+                        _ if !known.is_empty() => {
+                            let base = r.pick(&known).clone();
+                            let alt = match r.below(3) {
+                                0 => base.to_uppercase(),
+                                1 => base.to_lowercase(),
+                                _ => format!("{} ", base),
+                            };
+                            (alt, Variant::Int32(r.below(100) as i32))
+                        }
+                        _ => ("name ".to_owned(), Variant::String("x".into())),
+                    };
+                    if dbwalk::resolve(dbwalk::db(), &class, &name).is_none() && used_back.insert(name.clone()) {
+                        props.push((name, PV::V(v)));
+                    }
+                }
                 for _ in 0..k {
                     let ty = *r.pick(types);
                     // the name determines the type, so a class column never mixes types
